@@ -12,6 +12,8 @@ import (
 	"github.com/iancoleman/orderedmap"
 	"github.com/meshplus/bitxhub-core/boltvm"
 	"github.com/meshplus/bitxhub-core/governance"
+	nodemgr "github.com/meshplus/bitxhub-core/node-mgr"
+	service_mgr "github.com/meshplus/bitxhub-core/service-mgr"
 	"github.com/meshplus/bitxhub-model/pb"
 	zz "github.com/meshplus/bitxhub/internal/zzverif"
 )
@@ -43,6 +45,16 @@ func zzFullWorld() (*zzWorld, map[string]interface{}) {
 	p := &Proposal{Id: "0xSponsor-0", Typ: ServiceMgr, Status: APPROVED, ObjId: "chA:s1", ObjLastStatus: governance.GovernanceAvailable,
 		BallotMap: map[string]pb.Ballot{}, EventType: governance.EventUpdate, StrategyType: ZeroPermission, EndReason: NormalReason}
 	w.putObj(zzGovAddr, ProposalKey(p.Id), *p)
+	// an open proposal on the service chA:s1 (updating), four electors
+	open := &Proposal{Id: "0xSponsor-1", Typ: ServiceMgr, Status: PROPOSED, ObjId: "chA:s1", ObjLastStatus: governance.GovernanceAvailable,
+		BallotMap: map[string]pb.Ballot{}, EventType: governance.EventUpdate, StrategyType: SimpleMajority, StrategyExpression: "a > 0.5 * t",
+		InitialElectorateNum: 4, AvailableElectorateNum: 4, ThresholdApproveNum: 3}
+	for _, id := range zzAdminIDs {
+		open.ElectorateList = append(open.ElectorateList, &Role{ID: id, RoleType: GovernanceAdmin, Weight: 1, Status: governance.GovernanceAvailable})
+	}
+	w.putObj(zzGovAddr, ProposalKey(open.Id), *open)
+	w.putObj(zzServiceAddr, service_mgr.ServiceKey("chA:s1"), service_mgr.Service{ChainID: "chA", ServiceID: "s1", Name: "s1", Type: service_mgr.ServiceCallContract,
+		Ordered: true, Permission: map[string]struct{}{}, Status: governance.GovernanceUpdating})
 	ic := &pb.Interchain{ID: "1356:chA:s1", InterchainCounter: map[string]uint64{"1356:chB:s2": 3}, ReceiptCounter: map[string]uint64{"1356:chB:s2": 2},
 		SourceInterchainCounter: map[string]uint64{}, SourceReceiptCounter: map[string]uint64{}}
 	b, _ := ic.Marshal()
@@ -81,10 +93,15 @@ func zzArgsFor(m reflect.Value, str string) []reflect.Value {
 	return out
 }
 
-var zzSurfaceStrings = []string{"0xSponsor-0", "1356:chA:s1", "1356:chA:s1-1356:chB:s2-1", "x"}
+var zzSurfaceStrings = []string{"0xSponsor-0", "0xSponsor-1", "chA:s1", "1356:chA:s1", "1356:chA:s1-1356:chB:s2-1", "x"}
 
 // zzCallAsOutsider invokes contract.method the way BoltVM.Run would for an external account.
 func zzCallAsOutsider(w *zzWorld, c interface{}, address, method, str string) (res *boltvm.Response, panicked bool) {
+	return zzCallAs(w, zzOutsider, c, address, method, str)
+}
+
+// zzCallAs invokes contract.method the way BoltVM.Run would for the external account caller.
+func zzCallAs(w *zzWorld, caller string, c interface{}, address, method, str string) (res *boltvm.Response, panicked bool) {
 	defer func() {
 		if e := recover(); e != nil {
 			if zzIsControl(e) {
@@ -95,7 +112,7 @@ func zzCallAsOutsider(w *zzWorld, c interface{}, address, method, str string) (r
 		}
 	}()
 	rc := reflect.ValueOf(c)
-	rc.Elem().Field(0).Set(reflect.ValueOf(&zzStub{w: w, callee: address, currentCaller: zzOutsider}))
+	rc.Elem().Field(0).Set(reflect.ValueOf(&zzStub{w: w, callee: address, currentCaller: caller}))
 	m := rc.MethodByName(method)
 	out := m.Call(zzArgsFor(m, str))
 	if len(out) == 1 {
@@ -129,13 +146,30 @@ func zzSurface(address string, audit bool) {
 	}
 	method := list[zz.Choice("method", len(list))]
 	str := zzSurfaceStrings[zz.Choice("strings", len(zzSurfaceStrings))]
+	// who calls: an account without any role, the admin of ANOTHER appchain (chB; every object
+	// named by the arguments belongs to chA), a consensus node's account, or a governance admin
+	caller := zzOutsider
+	switch zz.Choice("callerRole", 4) {
+	case 3:
+		caller = zzAdminIDs[0]
+		zzPutGovAdmins(w, 4)
+	case 1:
+		caller = zzChainAdminB
+		zzPutChainAdmin(w, "chB", zzChainAdminB)
+	case 2:
+		caller = zzNodeAccount
+		w.putObj(zzNodeAddr, nodemgr.NodeKey(zzNodeAccount), nodemgr.Node{Account: zzNodeAccount, NodeType: nodemgr.VPNode, Pid: "QmNode", VPNodeId: 1, Primary: true, Status: governance.GovernanceAvailable})
+	}
+	w.caller = caller
 	before := w.effects
 	snap := w.snapshot()
-	_, _ = zzCallAsOutsider(w, c, address, method, str)
+	_, _ = zzCallAs(w, caller, c, address, method, str)
 	key := fmt.Sprintf("%T.%s", c, method)
 	zz.Observe("call", key)
 	zz.Tag("C17.F-broker", address == zzBrokerAddr)
 	zz.Tag("C17.D13-register", key == "*contracts.InterchainManager.Register")
+	// (the label says "outsider" for every role: with these arguments - ids of chA's objects,
+	// a finished proposal, junk - none of the four callers is the designated caller of anything)
 	if !zzUserEntry[key] {
 		zz.Assert("C17.outsider-no-effect:"+key, w.effects == before && w.unchanged(snap))
 	}
@@ -243,6 +277,17 @@ func ZZH_C17_chain_admin_scope() {
 	if !own {
 		zz.Assert("C17.scope.foreign-admin-refused-without-effect", err != nil && w.effects == before && w.unchanged(snap))
 	}
+}
+
+const zzNodeAccount = "0xN0de000000000000000000000000000000000001"
+
+// zzPutChainAdmin stores addr as the (only) admin of chain the way updateAppchainAdmin does.
+func zzPutChainAdmin(w *zzWorld, chain, addr string) {
+	ids := orderedmap.New()
+	ids.Set(addr, struct{}{})
+	w.putObj(zzRoleAddr, RoleKey(addr), Role{ID: addr, RoleType: AppchainAdmin, AppchainID: chain, Status: governance.GovernanceAvailable})
+	w.putObj(zzRoleAddr, RoleAppchainAdminKey(chain), ids)
+	w.putObj(zzRoleAddr, RoleTypeKey(string(AppchainAdmin)), ids)
 }
 
 // zzPutGovAdmins stores n available governance admins the way the genesis role setup does.
